@@ -358,6 +358,22 @@ Definition p_owner_req (m : mon) (D' : dump) (t : Z) (r : req) (rp : reply) (has
           if negb (reply_eqb rp (RpOp (ResStatus ERR_BAD_SEQID))) then "C19:misordered-accepted"
           else if negb (dump_eqb D D' && no_calls calls) then "C19:bad-seqid-side-effect" else ""
         else
+          (* LOCK with a new lock-owner file of an existing lock-owner: the nested
+             lock-owner transaction treats a lock seqid equal to the lock-owner's
+             cached one as a replay of a different request *)
+          let nested :=
+            match r with
+            | RLockNew _ _ _ _ _ lseq lclient lowner =>
+              match d_los_by D (lclient, lowner) with
+              | Some x => match dlo_last x with
+                          | Some c => (dlo_lastseq x =? lseq) && reply_eqb rp (RpOp (ca_res c))
+                                      && negb (reply_eqb rp (RpOp (ResStatus ERR_BAD_SEQID)))
+                          | None => false end
+              | None => false end
+            | _ => false
+            end in
+          if nested then "C19:false-retry-lock-new-nested"
+          else
           match rp with
           | RpOp res => check_exec D' (oi_ref oi) (oi_kind oi) (oi_seq oi) (oi_lastseq oi) res
           | _ => ""
